@@ -185,9 +185,11 @@ PROPS = {
     },
     'C13': {
         'verus': {'node_ids': ['ConcurrentNodeIds::new', 'ConcurrentNodeIds::next', 'lemma_distinct_tickets_distinct_ids'],
+                  # every new tree node written while trees are updated gets its id from the generator (freshness clauses of ins_post / mk_post)
+                  'tree_insert': TREE_INSERT, 'tree_make': TREE_MAKE, 'insert_glue': ['Writer::insert_items_in_tree'],
                   'insert_driver': ['Writer::insert_items_in_current_trees'], 'iict_lib': None, 'incr_driver': ['Writer::incremental_index_large_descendants'], 'incr_lib': None,
                   'build': ['Writer::build'], 'build_lib': None},
-        'assumed_fns': BUILD_ASSUMED + WB_ASSUMED,
+        'assumed_fns': BUILD_ASSUMED + WB_ASSUMED + FROZEN_ASSUMED + MAKE_ASSUMED,
         'trusted': ['A-ticket: an atomic fetch_add never returns the same value twice before the counter wraps (the `used` budget check stops the generator before 2^32 requests); load()/store() give no ticket',
                     'RoaringBitmap::select is injective and returns members (axiom_nth, admitted)',
                     'rayon and the two `unsafe impl Sync` are trusted: the per-root closures share only the id generator and read-only frozen views'] + BUILD_TRUSTED,
